@@ -212,6 +212,79 @@ theorem fraunhofer_inverse (P : Propagator ι κ d) (wf : Wavefront ι τ)
     funext t
     rw [map_smul, hInv, smul_smul, inv_mul_cancel₀ (normFactorC_ne_zero hne), one_smul]
 
+/-! ## one propagator object used repeatedly
+
+`forward`/`backward` are functions of the propagator's *current* fields and of the wavefront: no call leaves
+anything behind that a later call could see (the real object's scratch arrays and instance cache must be
+transparent — C05 proves that for the cache; the harness replays call sequences on one object).  The setter
+`prop.focal_length = g` replaces the focal length and, having cleared the cache, the transforms. -/
+
+/-- `prop.focal_length = g`: new focal length, transforms rebuilt by `make_instance` on the next call. -/
+def Propagator.setFocalLength (P : Propagator ι κ d) (g : ℝ → ℝ) (ft' : ℝ → FourierTransform ι κ) :
+    Propagator ι κ d :=
+  { P with focalLength := g, ft := ft' }
+
+/-- After the setter, forward is the Fourier integral for the **new** focal length (constant or
+wavelength-dependent) — nothing of the old one survives, whatever was propagated before. -/
+theorem fraunhofer_eq_integral_after_set (P : Propagator ι κ d) (g : ℝ → ℝ) (ft' : ℝ → FourierTransform ι κ)
+    (hT : (P.setFocalLength g ft').TransformsCorrect) (wf : Wavefront ι τ) (t : τ) (k : κ) :
+    ((P.setFocalLength g ft').forward wf).field t k
+      = 1 / (I * (wf.wavelength : ℂ) * (g wf.wavelength : ℂ))
+        * ∑ j, wf.field t j * (P.pupil.weights j : ℂ)
+            * cexp (-(2 * (Real.pi : ℂ) * I * ((dot (P.focal.pts k) (P.pupil.pts j) : ℝ) : ℂ))
+                / ((wf.wavelength : ℂ) * (g wf.wavelength : ℂ))) :=
+  fraunhofer_eq_integral (P.setFocalLength g ft') hT wf t k
+
+/-- The last assignment wins. -/
+theorem setFocalLength_setFocalLength (P : Propagator ι κ d) (g h : ℝ → ℝ) (f1 f2 : ℝ → FourierTransform ι κ) :
+    (P.setFocalLength g f1).setFocalLength h f2 = P.setFocalLength h f2 := rfl
+
+/-- **Backward is the adjoint Fourier integral** (two dimensions), for any focal grid on which the selected
+transform's `backward` evaluates the adjoint sum (C02 `adjoint_sum`):
+`E_back(u) = i/(λf) · Σ_x E(x) w_focal(x) exp(+2πi x·u/(λf))`.  This is what the harness compares every
+`backward` of a call sequence with. -/
+theorem fraunhofer_backward_eq_adjoint_integral (P : Propagator ι κ 2) (wg : Wavefront κ τ)
+    (hpos : 0 < wg.wavelength * P.focalLength wg.wavelength)
+    (hA : EvaluatesAdjointSum (P.ft wg.wavelength) P.pupil (P.uvGrid wg.wavelength)) (t : τ) (j : ι) :
+    (P.backward wg).field t j
+      = I / ((wg.wavelength : ℂ) * (P.focalLength wg.wavelength : ℂ))
+        * ∑ k, wg.field t k * (P.focal.weights k : ℂ)
+            * cexp (2 * (Real.pi : ℂ) * I * ((dot (P.focal.pts k) (P.pupil.pts j) : ℝ) : ℂ)
+                / ((wg.wavelength : ℂ) * (P.focalLength wg.wavelength : ℂ))) := by
+  unfold Propagator.backward
+  simp only [Pi.smul_apply, smul_eq_mul]
+  rw [hA (wg.field t) j]
+  have hlf : ((wg.wavelength : ℂ) * (P.focalLength wg.wavelength : ℂ)) ≠ 0 := by exact_mod_cast hpos.ne'
+  have hl : (wg.wavelength : ℂ) ≠ 0 := left_ne_zero_of_mul hlf
+  have hf : (P.focalLength wg.wavelength : ℂ) ≠ 0 := right_ne_zero_of_mul hlf
+  have hpi : ((2 * Real.pi : ℝ) : ℂ) ≠ 0 := by
+    have : (2 * Real.pi) ≠ 0 := by positivity
+    exact_mod_cast this
+  rw [Finset.mul_sum, Finset.mul_sum, Finset.mul_sum]
+  apply Finset.sum_congr rfl
+  intro k _
+  rw [focal_weight_eq P wg.wavelength hpos k, uv_dot]
+  have hexp : cexp (I * ((2 * Real.pi * dot (P.focal.pts k) (P.pupil.pts j) / (wg.wavelength * P.focalLength wg.wavelength) : ℝ) : ℂ))
+      = cexp (2 * (Real.pi : ℂ) * I * ((dot (P.focal.pts k) (P.pupil.pts j) : ℝ) : ℂ)
+          / ((wg.wavelength : ℂ) * (P.focalLength wg.wavelength : ℂ))) := by
+    congr 1; push_cast; ring
+  rw [hexp]
+  unfold normFactorC
+  push_cast at hpi ⊢
+  field_simp
+
+/-- Model: the instance a call uses after any history of `focal_length` assignments is the one of the last
+assigned value (unbounded histories). -/
+theorem session_instance_after_sets (s : Session) (fs : List FocalSpec) (f : FocalSpec) (lam : ℚ) :
+    ((fs ++ [f]).foldl Session.setFocalLength s).instanceAt lam
+      = { lam := lam, f := f.eval lam, pupil := s.pupil } := by
+  rw [List.foldl_append]
+  simp only [List.foldl_cons, List.foldl_nil, Session.instanceAt, Session.setFocalLength]
+  congr 1
+  induction fs generalizing s with
+  | nil => rfl
+  | cons g gs ih => exact (ih (s.setFocalLength g)).trans rfl
+
 /-! ## wavelength and Stokes vector -/
 
 /-- **`meta_carried`.** Forward and backward copy the wavelength and the Stokes vector unchanged. -/
